@@ -303,3 +303,198 @@ Definition immediate_refusal (g : graph) (st : state) (p : node) : bool :=
 Definition guard_ok (g : graph) (st : state) (p : node) : bool :=
   acyclicb g st p &&
   (negb (restricted g st (closure g st p)) || immediate_refusal g st p).
+
+(* ------------------------------------------------------------------ *)
+(* Part 5: class options on the dependent classes                      *)
+(* sqlmeta.lazyUpdate / sqlmeta.cacheValues per class; the options are part
+   of the schema.  A class that is not listed has the defaults. *)
+Record copts := { o_lazy : bool; o_cachevals : bool }.
+Definition options := list (N * copts).
+Definition opts_of (os : options) (n : N) : copts :=
+  match find (fun e => N.eqb (fst e) n) os with
+  | Some e => snd e
+  | None => {| o_lazy := false; o_cachevals := true |}
+  end.
+Definition lazy_of (os : options) (n : N) : bool := o_lazy (opts_of os n).
+Definition cachevals_of (os : options) (n : N) : bool := o_cachevals (opts_of os n).
+
+(* _SO_createValues of a live instance of a lazyUpdate class, positionally
+   parallel to c_fks: None = nothing queued for the column, Some v = the
+   assignment `column = v` is queued (not written) *)
+Definition qentry := list (option (option Z)).
+Definition queue := list (node * qentry).
+Definition qfind (q : queue) (p : node) : option qentry :=
+  match find (fun e => node_eqb (fst e) p) q with Some e => Some (snd e) | None => None end.
+
+(* what the instance answers for its columns: the row with the queued values on top *)
+Fixpoint overlay (vals : list (option Z)) (qs : qentry) {struct vals} : list (option Z) :=
+  match vals with
+  | [] => []
+  | v :: vs =>
+      match qs with
+      | [] => v :: vs
+      | Some w :: ws => w :: overlay vs ws
+      | None :: ws => v :: overlay vs ws
+      end
+  end.
+(* getattr(row, name): with cacheValues the cached attribute (a dirty instance is not
+   refreshed by a select, main.py get()); without it a SELECT of the stored value *)
+Definition view (os : options) (q : queue) (p : node) (vals : list (option Z)) : list (option Z) :=
+  if cachevals_of os (fst p)
+  then match qfind q p with Some qs => overlay vals qs | None => vals end
+  else vals.
+
+(* the dict `clear`: the cascade='null' columns to `name` whose attribute equals self.id *)
+Fixpoint clear_flags (name : N) (x : Z) (cols : list fkcol) (vw : list (option Z)) {struct cols} : list bool :=
+  match cols with
+  | [] => []
+  | c :: cs =>
+      match vw with
+      | [] => []
+      | v :: vs => (is_setnull (fk_policy c) && N.eqb (fk_target c) name && val_is v x) :: clear_flags name x cs vs
+      end
+  end.
+Fixpoint qmerge (flags : list bool) (qs : qentry) {struct flags} : qentry :=
+  match flags with
+  | [] => qs
+  | f :: fs =>
+      (if f then Some None else match qs with [] => None | h :: _ => h end)
+        :: qmerge fs (match qs with [] => [] | _ :: t => t end)
+  end.
+(* row.set of the dict `clear` on a lazyUpdate instance: _SO_createValues.update(clear), nothing written *)
+Definition qupd (q : queue) (p : node) (flags : list bool) : queue :=
+  if existsb (fun b => b) flags
+  then (p, qmerge flags (match qfind q p with Some e => e | None => [] end))
+         :: filter (fun e => negb (node_eqb (fst e) p)) q
+  else q.
+
+(* the SetNull pass over a lazyUpdate class: every selected row's instance gets the NULLs
+   queued; an instance nobody holds on a cache=False connection is dropped with its queue *)
+Definition lazy_null_pass (os : options) (doCache : bool) (name : N) (x : Z) (k : classdef)
+           (st : state) (q : queue) : queue :=
+  fold_left (fun q r =>
+               let p := (c_name k, r_id r) in
+               if doCache || mem p (s_cache st)
+               then qupd q p (clear_flags name x (c_fks k) (view os q p (r_vals r)))
+               else q)
+            (select_matching name x k st) q.
+
+(* --- the stored state alone (what the database and the identity map see) --- *)
+Definition dep_stepL (os : options) (rec : state -> node -> result) (name : N) (x : Z) (k : classdef)
+           (st : state) : result :=
+  let st1 := fold_left (fun s j => if N.eqb (j_other j) name
+                                   then sql_delete_links (j_table j) (negb (j_side j)) x s else s)
+                       (c_joins k) st in
+  let cols := dep_cols name k in
+  if is_nil cols then Done st1
+  else
+    let restrict := existsb (fun c => is_restrict (fk_policy c)) cols in
+    if restrict && negb (is_nil (select_restricting name x k st1)) then Raised st1
+    else
+      let st2 :=
+        if existsb (fun c => is_setnull (fk_policy c)) cols && negb (lazy_of os (c_name k))
+        then fold_left (fun s r => sql_null_row k name x (r_id r) s) (select_matching name x k st1) st1
+        else st1 in
+      if existsb (fun c => is_cascade (fk_policy c)) cols
+      then run_list (fun i s => rec s (c_name k, i)) (map r_id (select_matching name x k st2)) st2
+      else Done st2.
+
+Fixpoint destroyL (os : options) (doCache : bool) (fuel : nat) (g : graph) (st : state) (p : node) : result :=
+  match fuel with
+  | O => OutOfFuel
+  | S f =>
+      let name := fst p in
+      let x := snd p in
+      let st1 := fold_left (fun s j => sql_delete_links (j_table j) (j_side j) x s) (joins_of g name) st in
+      match run_list (dep_stepL os (destroyL os doCache f g) name x) (find_dependencies name g) st1 with
+      | Done st2 => Done (cache_purge doCache p (sql_delete_row name x st2))
+      | other => other
+      end
+  end.
+
+(* --- the same with the queues of the live instances --- *)
+Inductive xresult := XDone (st : state) (q : queue) | XRaised (st : state) (q : queue) | XOutOfFuel.
+Definition xproj (r : xresult) : result :=
+  match r with XDone st _ => Done st | XRaised st _ => Raised st | XOutOfFuel => OutOfFuel end.
+
+Fixpoint run_listX {A : Type} (body : A -> state -> queue -> xresult) (l : list A) (st : state) (q : queue)
+  : xresult :=
+  match l with
+  | [] => XDone st q
+  | a :: rest =>
+      match body a st q with
+      | XDone st' q' => run_listX body rest st' q'
+      | other => other
+      end
+  end.
+
+Definition dep_stepX (os : options) (doCache : bool) (rec : state -> queue -> node -> xresult)
+           (name : N) (x : Z) (k : classdef) (st : state) (q : queue) : xresult :=
+  let st1 := fold_left (fun s j => if N.eqb (j_other j) name
+                                   then sql_delete_links (j_table j) (negb (j_side j)) x s else s)
+                       (c_joins k) st in
+  let cols := dep_cols name k in
+  if is_nil cols then XDone st1 q
+  else
+    let restrict := existsb (fun c => is_restrict (fk_policy c)) cols in
+    if restrict && negb (is_nil (select_restricting name x k st1)) then XRaised st1 q
+    else
+      let hasnull := existsb (fun c => is_setnull (fk_policy c)) cols in
+      let st2 :=
+        if hasnull && negb (lazy_of os (c_name k))
+        then fold_left (fun s r => sql_null_row k name x (r_id r) s) (select_matching name x k st1) st1
+        else st1 in
+      let q2 :=
+        if hasnull && lazy_of os (c_name k)
+        then lazy_null_pass os doCache name x k st1 q
+        else q in
+      if existsb (fun c => is_cascade (fk_policy c)) cols
+      then run_listX (fun i s q' => rec s q' (c_name k, i)) (map r_id (select_matching name x k st2)) st2 q2
+      else XDone st2 q2.
+
+Fixpoint destroyX (os : options) (doCache : bool) (fuel : nat) (g : graph) (st : state) (q : queue) (p : node)
+  : xresult :=
+  match fuel with
+  | O => XOutOfFuel
+  | S f =>
+      let name := fst p in
+      let x := snd p in
+      let st1 := fold_left (fun s j => sql_delete_links (j_table j) (j_side j) x s) (joins_of g name) st in
+      match run_listX (dep_stepX os doCache (destroyX os doCache f g) name x) (find_dependencies name g) st1 q with
+      | XDone st2 q2 => XDone (cache_purge doCache p (sql_delete_row name x st2))
+                              (filter (fun e => negb (node_eqb (fst e) p)) q2)
+      | other => other
+      end
+  end.
+
+(* syncUpdate() of every live instance: "UPDATE <k> SET <queued columns> WHERE id = <i>"
+   (no row, no effect) *)
+Definition flush (q : queue) (st : state) : state :=
+  fold_left (fun s e =>
+     map_tabs (fun n rs =>
+        if N.eqb n (fst (fst e))
+        then map (fun r => if Z.eqb (r_id r) (snd (fst e))
+                           then {| r_id := r_id r; r_vals := overlay (r_vals r) (snd e) |} else r) rs
+        else rs) s) q st.
+
+(* some lazyUpdate class has a cascade='null' column *)
+Definition lazy_nulls (os : options) (g : graph) : bool :=
+  existsb (fun k => lazy_of os (c_name k) && existsb (fun c => is_setnull (fk_policy c)) (c_fks k)) g.
+
+(* ------------------------------------------------------------------ *)
+(* Part 6: destroySelf of an instance bound to a Transaction            *)
+(* The classes' connection (the parent) holds s_cache; the victim is fetched through
+   the transaction, whose own cache starts empty.  Normal return: commit() --
+   Transaction.commit calls expire() on the parent's instance of every id in the
+   transaction's cache or in _deletedCache; CacheFactory.expire drops the entry only
+   when the parent caches (doCache).  Exception: rollback(). *)
+Definition with_cache (st : state) (c : list node) : state :=
+  {| s_tabs := s_tabs st; s_links := s_links st; s_cache := c |}.
+Definition commit_parent (doCache : bool) (st0 st' : state) : list node :=
+  if doCache then filter (row_exists st') (s_cache st0) else s_cache st0.
+Definition destroy_txn (os : options) (doCache : bool) (fuel : nat) (g : graph) (st : state) (p : node) : result :=
+  match destroyX os doCache fuel g (with_cache st []) [] p with
+  | XDone st' _ => Done (with_cache st' (commit_parent doCache st st'))
+  | XRaised _ _ => Raised st
+  | XOutOfFuel => OutOfFuel
+  end.
